@@ -32,6 +32,7 @@ use std::panic::AssertUnwindSafe;
 use std::path::{Path, PathBuf};
 
 const MAIN_PATH: &str = "/p/main.graphql";
+const STANDALONE_CONFIG: &str = "schema: ./schema.graphql\ndocuments: ./*.graphql\nextensions:\n  nitrogql:\n    generate:\n      mode: standalone-ts-4.0\n";
 
 #[derive(Clone, Debug)]
 struct Case {
@@ -196,6 +197,9 @@ fn run_real(case: &Case, with_loader: bool) -> Result<RealOut, String> {
         (source, js)
     })?;
     let conv = |r: Result<String, String>| -> Result<Vec<Value>, String> {
+        if std::env::var("C12_DEBUG").is_ok() {
+            eprintln!("--- emitted text\n{r:?}");
+        }
         match r {
             Err(p) => Err(format!("panic: {p}")),
             Ok(text) => extract_consts(&text).map(|v| v.into_iter().map(|(_, j)| j).collect()),
@@ -214,7 +218,10 @@ fn run_real(case: &Case, with_loader: bool) -> Result<RealOut, String> {
                 let ts = catch(AssertUnwindSafe(|| {
                     let mut ts = String::new();
                     let mut w = JustWriter::new(&mut ts);
-                    let options = OperationTypePrinterOptions { print_values: true, ..Default::default() };
+                    // the options the CLI derives from a config whose generate.mode is standalone-ts-4.0
+                    let config = nitrogql_config_file::parse_config(STANDALONE_CONFIG).expect("standalone config parses");
+                    let options = OperationTypePrinterOptions::from_config(&config);
+                    assert!(options.print_values, "mode standalone-ts-4.0 must print values");
                     print_types_for_operation_document(options, schema, doc, &mut w);
                     ts
                 }));
@@ -756,6 +763,9 @@ impl<'a> Ctx<'a> {
                         self.rep.k_cases += 1;
                         self.rep.count(&format!("k:{path}"));
                         let real_tree = json_to_sexp(&vals[i]);
+                        if std::env::var("C12_DEBUG").is_ok() {
+                            eprintln!("--- real tree\n{}\n--- model\n{}", real_tree.to_line(), model[i].to_line());
+                        }
                         match model[i].head() {
                             Some("ok") => {
                                 let m = canon_json(&model[i].args()[0]);
@@ -902,7 +912,7 @@ fn main() {
     let search = args.extra.get("search").map_or(false, |s| s == "1");
     let mut rng = Rng::new(args.seed);
     // (A) schema-valid documents (all three paths)
-    let n_valid = args.budget(120, 1500) * if search { 2 } else { 1 };
+    let n_valid = if search { 2000 } else { args.budget(120, 1500) };
     let mut batch = vec![];
     for _ in 0..n_valid {
         let cfg = GenCfg { hostile_text: true, max_depth: 3, ..GenCfg::default() };
@@ -934,7 +944,7 @@ fn main() {
     ctx.run(&batch);
     batch.clear();
     // (B) syntactic documents (js + loader paths): every value kind, directives everywhere, cyclic fragment graphs
-    let n_syn = args.budget(600, 8000) * if search { 2 } else { 1 };
+    let n_syn = if search { 12000 } else { args.budget(600, 8000) };
     for _ in 0..n_syn {
         let (doc, mut features, undefined) = gen_syntactic(&mut rng, true);
         if has_cycle(&doc) {
